@@ -85,7 +85,11 @@ func getFreshness(p *Program) *freshness {
 					if !ok {
 						continue
 					}
-					for i, v := range ret.Results {
+					if isRecoverBlock(b) {
+						continue
+					}
+					for i := range ret.Results {
+						v := retValue(ret, i)
 						if rs[i] && !f.fresh(v, 0) {
 							rs[i] = false
 							changed = true
@@ -652,8 +656,11 @@ func ruleA1(p *Program, r *Reporter) {
 				if !ok {
 					continue
 				}
+				if isRecoverBlock(b) {
+					continue
+				}
 				for _, i := range idxs {
-					v := ret.Results[i]
+					v := retValue(ret, i)
 					ok := f.fresh(v, 0)
 					why := "returned value is a fresh copy / newly built container of fresh copies"
 					nontrivial := !isNilConst(v)
@@ -705,7 +712,11 @@ func ruleA1p(p *Program, r *Reporter) {
 				if !isRet {
 					continue
 				}
-				for i, v := range ret.Results {
+				if isRecoverBlock(b) {
+					continue
+				}
+				for i := range ret.Results {
+					v := retValue(ret, i)
 					if guardedResult(res.At(i).Type()) {
 						ok := f.fresh(v, 0)
 						why := "shallow rows only leave through model.Clone"
